@@ -378,7 +378,7 @@ theorem wf_step (div : DivFn) (s s' : St) (a : Act) (hinv : Inv s) (h : WF s) (h
   | release p => obtain ⟨_, rfl⟩ := step_release hs; exact wf_same h rfl rfl rfl rfl h.restSub
   | stop => obtain ⟨_, rfl⟩ := step_stop hs; exact wf_same h rfl rfl rfl rfl h.restSub
   | graceful => obtain ⟨_, rfl⟩ := step_graceful hs; exact wf_same h rfl rfl rfl rfl h.restSub
-  | top c => exact wf_stepTop div s s' c h (step_top hs).2
+  | top c => exact wf_stepTop div s s' c h (step_top hs).2.1
   | «calc» => obtain ⟨_, rfl⟩ := step_calc hs; exact wf_stepCalc div s h
   | recalc =>
     obtain ⟨hpc, rfl⟩ := step_recalc hs
